@@ -176,8 +176,12 @@ def run(ctx, eng):
     counted = {'OPEN', 'HALF_CLOSED_LOCAL', 'HALF_CLOSED_REMOTE'}
     compare_cells(eng, ctx, feedable_from_source(eng, ctx),
                   rule='FSM.counted',
+                  # ... and, since the count after every later step must
+                  # agree as well, is the reference's state whenever either
+                  # of the two is a counted one
                   differs=lambda exp, got: exp[0] == 'ok' and got[0] == 'ok'
-                  and (exp[2].st in counted) != (got[2].st in counted))
+                  and exp[2].st != got[2].st and
+                  (exp[2].st in counted or got[2].st in counted))
     cm.include(ctx, eng, 'C11', {'FLOW.queue', 'FLOW.ack-source'},
                'the enforced local limit is the acknowledged one: one '
                'pending value per setting becomes current per ACK')
